@@ -100,12 +100,18 @@ static uint64_t run_matrix(const QMat& M, Ctx& c)
    R.push_back(dn);
    int nR = (int)R.size();
    uint64_t h = 1;
-   for(int v = 0; v < NRV; ++v)
+   // two passes over the solve variants on the SAME factorisation object: the natural order with every right-hand side, and a
+   // second order (dense left solve before sparse right solve, etc.) with two right-hand sides - no state may leak between solves
+   static const int ORDER2[NRV] = {5, 1, 7, 0, 8, 2, 6, 3, 4};
+   for(int pass = 0; pass < 2; ++pass)
+   for(int vi = 0; vi < NRV; ++vi)
    {
+      int v = pass ? ORDER2[vi] : vi;
       set_sub(v);
       bool left = v >= 5;
       for(int k = 0; k < nR; ++k)
       {
+         if(pass == 1 && k != 1 % nR && k != nR - 1) continue;
          const std::vector<Q>& b1 = R[k], &b2 = R[(k + 1) % nR], &b3 = R[(k + 2) % nR];
          std::vector<Q> z1, z2, z3;
          qsolve(left ? MT : M, b1, z1); qsolve(left ? MT : M, b2, z2); qsolve(left ? MT : M, b3, z3);
@@ -369,7 +375,6 @@ int main(int argc, char** argv)
       }, [&](uint64_t idx, uint64_t) { return qmat_str(matOf(idx, 4, A3)); }, o, sfx);
    }
    // part B
-   if(thin == 1)
    {
       FamilySet fs;
       fs.add(famQ());
